@@ -90,7 +90,7 @@ def evaluate(pid, mk, src, tier, jobs, only_check=False):
 
 def main():
     args = sys.argv[1:]
-    jobs, tier, only_check, recheck = 4, "quick", False, False
+    jobs, tier, only_check, recheck, rnd = 4, "quick", False, False, ""
     items = []
     while args:
         a = args.pop(0)
@@ -102,6 +102,8 @@ def main():
             only_check = True
         elif a == "--recheck":
             recheck = True
+        elif a == "--round":
+            rnd = args.pop(0)
         else:
             items.append(a)
     for it in items:
@@ -111,7 +113,9 @@ def main():
             oc = True
         else:
             pid, mk = it.split(":")
-            src = f"/tmp/seedout-{pid}/{mk}"
+            src = f"/tmp/seedout{rnd}-{pid}/{mk}"
+            if rnd:
+                mk = f"r{rnd}{mk}"
             oc = only_check
         name, meta = evaluate(pid, mk, src, tier, jobs, oc)
         v = meta["validation"]
